@@ -235,6 +235,37 @@ def coqc(relpath, timeout=600):
     return sh(["coqc", "-w", "-all", "-Q", ".", "SV", relpath], cwd=COQ, timeout=timeout)
 
 
+class _Slot(object):
+    """A machine-wide pool of NCPU slots (lock files) so that several checks
+    running at the same time never have more than NCPU coqc processes in
+    total; also caps each coqc's address space so that a runaway shard fails
+    instead of exhausting the machine."""
+    DIR = os.path.join(COQ, ".slots")
+
+    @staticmethod
+    def try_acquire():
+        """Non-blocking: a locked slot file, or None when all are taken."""
+        import fcntl
+        os.makedirs(_Slot.DIR, exist_ok=True)
+        for k in range(NCPU):
+            f = open(os.path.join(_Slot.DIR, "slot%d" % k), "w")
+            try:
+                fcntl.flock(f, fcntl.LOCK_EX | fcntl.LOCK_NB)
+                return f
+            except OSError:
+                f.close()
+        return None
+
+    @staticmethod
+    def limits():
+        import resource
+        lim = int(os.environ.get("VERIF_COQC_MEM_GB", "6")) * (1 << 30)
+        try:
+            resource.setrlimit(resource.RLIMIT_AS, (lim, lim))
+        except (ValueError, OSError):
+            pass
+
+
 _ws = re.compile(r"\s+")
 
 
@@ -409,14 +440,16 @@ class Check(object):
 
         def reap(block):
             for item in list(running):
-                k, fn, p, t = item
+                k, fn, p, t, slot = item
                 if p.poll() is None:
                     if time.time() - t > timeout:
                         p.kill()
+                        slot.close()
                         errors.append((fn, "timeout"))
                         running.remove(item)
                     continue
                 out = p.stdout.read().decode("utf-8", "replace")
+                slot.close()
                 running.remove(item)
                 if p.returncode != 0:
                     errors.append((fn, out[-3000:]))
@@ -441,10 +474,14 @@ class Check(object):
 
         while pending or running:
             while pending and len(running) < NCPU:
+                slot = _Slot.try_acquire()
+                if slot is None:
+                    break            # never wait while holding slots: reap first
                 k, fn = pending.pop(0)
                 p = subprocess.Popen(["coqc", "-w", "-all", "-Q", ".", "SV", "Cases/" + fn],
-                                     cwd=COQ, stdout=subprocess.PIPE, stderr=subprocess.STDOUT)
-                running.append((k, fn, p, time.time()))
+                                     cwd=COQ, stdout=subprocess.PIPE, stderr=subprocess.STDOUT,
+                                     preexec_fn=_Slot.limits)
+                running.append((k, fn, p, time.time(), slot))
             reap(False)
             time.sleep(0.02)
         if errors:
